@@ -4,7 +4,7 @@
    where rodrigues_th is the so(3) branch of the hand model of trexp (Model/C03_ExpLog.v; tied to base.trexp / base.rodrigues on
    every run by the extracted-float correspondence and by bridge theorems to the concolic traces in Props/C03.v).
    This upgrades, for the rotation block, C03_trexp_is_expm_partial / the ODE characterisation of Props/C03_ode.v: no appeal to
-   uniqueness of ODE solutions is needed.  (The translation block of se(3) is still characterised by the ODE only.)
+   uniqueness of ODE solutions is needed.  C03_trexp_se3_is_expm_series does the same for all 16 entries of the se(3) case.
    Lemma library: theories/Model/C03_Series.v (fixed, built at setup). *)
 From Coq Require Import Reals ZArith Lra Lia.
 From Coquelicot Require Import Coquelicot.
@@ -24,6 +24,20 @@ Theorem C03_trexp_so3_is_expm_series_Reals : forall (u : V3 R) (th : R), normsq3
   Pser (fun k => e33 (mpow33 (skew3 Rops u) k) i j / INR (fact k)) th (e33 (rodrigues_th Rops u th) i j).
 Proof. intros u th Hu i j Hi Hj. apply is_pseries_Reals. exact (rodrigues_is_expm_series u th i j Hu Hi Hj). Qed.
 Print Assumptions C03_trexp_so3_is_expm_series_Reals.
+
+(* se(3), all 16 entries: trexp(S, theta) on a unit twist S = (v, w), |w| = 1 (the model's [trexp_unit]: rotation block Rodrigues,
+   translation V(theta) v, last row 0 0 0 1) is the sum of the exponential series of theta [S], [S] = se3_hat S the 4x4 twist matrix *)
+Theorem C03_trexp_se3_is_expm_series : forall (v0 v1 v2 w0 w1 w2 th : R),
+  normsq3 Rops (w0,w1,w2) = 1 ->
+  let S := (v0,v1,v2,w0,w1,w2) in
+  forall i j, (i < 4)%nat -> (j < 4)%nat ->
+  is_pseries (fun k => e44 (mpow44 (se3_hat S) k) i j / INR (fact k)) th (e44 (trexp_unit Rops C03_thr S th) i j).
+Proof.
+  intros v0 v1 v2 w0 w1 w2 th Hw S i j Hi Hj.
+  assert (HK : thr_ok C03_thr) by (unfold thr_ok, C03_thr; cbn; repeat split; lra).
+  exact (trexp_unit_is_expm_series C03_thr v0 v1 v2 w0 w1 w2 th HK Hw i j Hi Hj).
+Qed.
+Print Assumptions C03_trexp_se3_is_expm_series.
 
 (* non-vacuity: a unit axis, and the first terms of one entry: about z, entry (0,1) is -sin theta = -theta + theta^3/6 - ... *)
 Example C03_series_nonvacuous :
